@@ -168,10 +168,12 @@ pub fn build(sc: &Scenario, tag: &str) -> Result<Built, String> {
     OutPoint { txid: st.blocks[&hash].txdata[0].compute_txid(), vout: 0 }
   };
   // fan-out that also etches R0 with its premine on output 3
+  // the parents sit in outputs whose values differ from the default postage and from each other
+  const EXISTING_VALUES: [u64; 3] = [20_000, 7_000, 10_000];
   let mut outs: Vec<bitcoin::TxOut> = vec![
-    txkit::txout(10_000, w.script_pubkey()),
-    txkit::txout(10_000, w.script_pubkey()),
-    txkit::txout(10_000, w.script_pubkey()),
+    txkit::txout(EXISTING_VALUES[0], w.script_pubkey()),
+    txkit::txout(EXISTING_VALUES[1], w.script_pubkey()),
+    txkit::txout(EXISTING_VALUES[2], w.script_pubkey()),
     txkit::txout(600_000, w.script_pubkey()),
   ];
   for _ in 0..N_CARDINALS {
@@ -190,7 +192,7 @@ pub fn build(sc: &Scenario, tag: &str) -> Result<Built, String> {
   for i in 0..3u32 {
     let tx = txkit::tx(
       vec![txkit::txin(OutPoint { txid: fan_id, vout: i }, envelope_witness(format!("existing{i}").as_bytes()))],
-      vec![txkit::txout(10_000, w.script_pubkey())],
+      vec![txkit::txout(EXISTING_VALUES[i as usize], w.script_pubkey())],
     );
     ids.push(InscriptionId { txid: tx.compute_txid(), index: 0 });
     ops.push(OutPoint { txid: tx.compute_txid(), vout: 0 });
